@@ -3,6 +3,7 @@
 ROI = "odc/geo/roi.py"
 MATH = "odc/geo/math.py"
 OVERLAP = "odc/geo/overlap.py"
+SHARED = "odc/geo/cog/_shared.py"
 
 MODULES = [
     {
@@ -58,6 +59,17 @@ MODULES = [
              "params": [("Ns", "Z"), ("Nd", "Z"), ("s", "Q"), ("t", "Q")], "ret": ("T", "NS", "NS"), "raises": True},
             {"file": OVERLAP, "py": "_pick_read_scale", "g": "g_pick_read_scale",
              "params": [("scale", "Q"), ("tol", "Q")], "ret": "Z", "raises": True},
+        ],
+    },
+    {
+        "out": "Gen/CogGen.v",
+        "props": ["C05", "C15"],
+        "items": [
+            {"file": MATH, "py": "align_down", "g": "g_align_down", "params": [("x", "Z"), ("align", "Z")], "ret": "Z"},
+            {"file": MATH, "py": "align_up", "g": "g_align_up", "params": [("x", "Z"), ("align", "Z")], "ret": "Z"},
+            {"file": SHARED, "py": "adjust_blocksize", "g": "g_adjust_blocksize", "params": [("block", "Z"), ("dim", "Z")], "ret": "Z"},
+            {"file": SHARED, "py": "num_overviews", "g": "g_num_overviews", "params": [("block", "Z"), ("dim", "Z")], "ret": "Z",
+             "raises": True, "fuel": "S (S (Z.to_nat (Z.log2 (Z.abs dim))))"},
         ],
     },
 ]
